@@ -26,6 +26,9 @@ pub open spec fn enumerates_outputs(s: Seq<OutputData>, m: Map<OutKey, OutputDat
     &&& forall|k: OutKey| #[trigger] m.dom().contains(k) ==> exists|i: int| 0 <= i < s.len() && s[i] == m[k]
     &&& forall|i: int, j: int| #![auto] 0 <= i < j < s.len() ==> out_key(s[i]) != out_key(s[j])
 }
+// storage (cursor) order is a function of the table's content
+pub uninterp spec fn seq_of_outputs(m: Map<OutKey, OutputData>) -> Seq<OutputData>;
+pub uninterp spec fn seq_of_log(m: Map<(Identifier, u32), TxLogEntry>) -> Seq<TxLogEntry>;
 pub open spec fn log_key(t: TxLogEntry) -> (Identifier, u32) { (t.parent_key_id, t.id) }
 pub open spec fn enumerates_log(s: Seq<TxLogEntry>, m: Map<(Identifier, u32), TxLogEntry>) -> bool {
     &&& forall|i: int| 0 <= i < s.len() ==> #[trigger] m.dom().contains(log_key(s[i])) && m[log_key(s[i])] == s[i]
@@ -76,7 +79,7 @@ pub trait WalletBackend<'ck, C, K> where C: NodeClient + 'ck, K: Keychain + 'ck 
             forall|m: Option<&SecretKey>| final(self).mask_valid(m) == old(self).mask_valid(m);
 
     fn iter<'a>(&'a self) -> (r: VIter<OutputData>)
-        ensures enumerates_outputs(r@, self.state().outputs);
+        ensures enumerates_outputs(r@, self.state().outputs), r@ == seq_of_outputs(self.state().outputs);
 
     fn get(&self, id: &Identifier, mmr_index: &Option<u64>) -> (r: Result<OutputData, Error>)
         ensures r matches Ok(o) ==> self.state().outputs.dom().contains((*id, *mmr_index)) && o == self.state().outputs[(*id, *mmr_index)];
@@ -90,7 +93,7 @@ pub trait WalletBackend<'ck, C, K> where C: NodeClient + 'ck, K: Keychain + 'ck 
             !old(self).state().contexts.dom().contains(slate_id@) ==> r is Err;
 
     fn tx_log_iter<'a>(&'a self) -> (r: VIter<TxLogEntry>)
-        ensures enumerates_log(r@, self.state().tx_log);
+        ensures enumerates_log(r@, self.state().tx_log), r@ == seq_of_log(self.state().tx_log);
 
     fn batch<'a>(&'a mut self, keychain_mask: Option<&SecretKey>) -> (r: Result<Box<dyn WalletOutputBatch<K> + 'a>, Error>)
         ensures
@@ -119,11 +122,17 @@ pub trait WalletBackend<'ck, C, K> where C: NodeClient + 'ck, K: Keychain + 'ck 
         ensures final(self).state() == old(self).state(),
             final(self).has_keychain() == old(self).has_keychain(),
             forall|m: Option<&SecretKey>| final(self).mask_valid(m) == old(self).mask_valid(m),
-            r matches Ok(h) ==> h == spec_conf_height(old(self).state());
+            r matches Ok(h) ==> h == spec_conf_height(old(self).state()),
+            r matches Err(e) ==> store_err(e);
 
     fn store_tx(&self, uuid: &str, tx: &Transaction) -> (r: Result<(), Error>);
 }
 
+// A-store-errors: the storage layer reports storage-class errors only, never a protocol verdict
+pub open spec fn store_err(e: Error) -> bool {
+    !(e is TransactionExpired) && !(e is TransactionAlreadyReceived) && !(e is TransactionDoesntExist)
+    && !(e is TransactionNotCancellable) && !(e is NotEnoughFunds) && !(e is SlateState) && !(e is PaymentProof)
+}
 pub open spec fn spec_conf_height(s: WalletState) -> u64 {
     if s.conf_height.dom().contains(s.parent) { s.conf_height[s.parent] } else { 0 }
 }
@@ -143,7 +152,7 @@ pub trait WalletOutputBatch<K> where K: Keychain {
             !self.view().outputs.dom().contains((*id, *mmr_index)) ==> r is Err;
 
     fn iter(&self) -> (r: VIter<OutputData>)
-        ensures enumerates_outputs(r@, self.view().outputs);
+        ensures enumerates_outputs(r@, self.view().outputs), r@ == seq_of_outputs(self.view().outputs);
 
     fn delete(&mut self, id: &Identifier, mmr_index: &Option<u64>) -> (r: Result<(), Error>)
         ensures final(self).base() == old(self).base(), final(self).result() == old(self).result(),
@@ -170,7 +179,7 @@ pub trait WalletOutputBatch<K> where K: Keychain {
             r is Err ==> final(self).view() == old(self).view();
 
     fn tx_log_iter(&self) -> (r: VIter<TxLogEntry>)
-        ensures enumerates_log(r@, self.view().tx_log);
+        ensures enumerates_log(r@, self.view().tx_log), r@ == seq_of_log(self.view().tx_log);
 
     fn save_tx_log_entry(&mut self, t: TxLogEntry, parent_id: &Identifier) -> (r: Result<(), Error>)
         ensures final(self).base() == old(self).base(), final(self).result() == old(self).result(),
